@@ -28,6 +28,7 @@ import WntrModel.Props.C17
 import WntrModel.Lemmas.EnginesTree
 import WntrModel.Model.Time
 import WntrModel.Lemmas.Time
+import WntrModel.Props.C04
 import Mathlib.Tactic.Ring
 import Mathlib.Tactic.Linarith
 import Mathlib.Tactic.Positivity
@@ -328,5 +329,81 @@ theorem wntr_atClock_matches_spec (dur sc r c prev cur : Int) (hc0 : 0 ≤ c) (h
   · rintro ⟨t, h1, h2, h3⟩
     simp only [firesSpec] at h3
     refine ⟨(t + sc) / 86400, by omega, by omega, by omega⟩
+
+/-! ### rule evaluation instants: EPANET vs WNTRSimulator (one theorem, two witnesses) -/
+
+/-- **where the two rule grids coincide**: if the rule step divides the hydraulic step, EPANET's evaluation instants (multiples of the
+rule step and ends of hydraulic steps, never 0) are exactly WNTRSimulator's (positive multiples of the rule step, C04
+`rules_on_positive_grid`) -/
+theorem rule_instants_coincide (R H : Int) (hdiv : H % R = 0) (t : Int) :
+    epanetRuleInstant R H t ↔ wntrRuleInstant R t := by
+  unfold epanetRuleInstant wntrRuleInstant
+  constructor
+  · rintro ⟨h0, h | h⟩
+    · exact ⟨h0, h⟩
+    · exact ⟨h0, Int.emod_eq_zero_of_dvd (dvd_trans (Int.dvd_of_emod_eq_zero hdiv) (Int.dvd_of_emod_eq_zero h))⟩
+  · rintro ⟨h0, h⟩
+    exact ⟨h0, Or.inl h⟩
+
+/-- hence every time premise (`>=` or `=`) with a POSITIVE threshold fires at the same instant in both engines -/
+theorem rule_fire_coincide (R H : Int) (hdiv : H % R = 0) (eq : Bool) (c t : Int) (hc : 0 < c) :
+    epanetFires R H eq c t ↔ wntrFires R eq c t := by
+  unfold epanetFires wntrFires FiresAt
+  simp only [rule_instants_coincide R H hdiv]
+  constructor
+  · rintro ⟨a, b, m, _⟩; exact ⟨a, b, m, fun _ => by omega⟩
+  · rintro ⟨a, b, m, _⟩; exact ⟨a, b, m, fun _ => hc⟩
+
+/-- the statement "both engines act at the same rule instants" in full; it is FALSE of the pair (two witnesses below) -/
+def RuleInstantsAgree : Prop :=
+  ∀ R H : Int, 0 < R → 0 < H → ∀ (eq : Bool) (c t : Int), 0 ≤ c → (epanetFires R H eq c t ↔ wntrFires R eq c t)
+
+/-- witness 1 (known finding `rule-equals-premise-at-time-zero`): an `=` premise due at time 0 fires at the first rule step in
+WNTRSimulator and never in EPANET — even when the rule step divides the hydraulic step -/
+theorem rule_fire_differs_at_zero (R H : Int) (hR : 0 < R) :
+    wntrFires R true 0 R ∧ ¬ ∃ t, epanetFires R H true 0 t := by
+  constructor
+  · refine ⟨⟨hR, Int.emod_self⟩, le_of_lt hR, ?_, fun _ => by omega⟩
+    rintro u ⟨hu0, hu⟩ _
+    exact Int.le_of_dvd hu0 (Int.dvd_of_emod_eq_zero hu)
+  · rintro ⟨t, _, _, _, h⟩
+    have := h rfl
+    omega
+
+/-- witness 2 (known finding `rule-step-not-dividing-hydraulic-step`): rule step 360 s, hydraulic step 900 s, premise at 900 s:
+EPANET acts at 900 s (end of the hydraulic step), WNTRSimulator at 1080 s -/
+theorem rule_fire_differs_nondividing :
+    epanetFires 360 900 true 900 900 ∧ wntrFires 360 true 900 1080 ∧ ¬ wntrFires 360 true 900 900 := by
+  refine ⟨⟨⟨by omega, Or.inr (by omega)⟩, le_refl _, fun u _ h => h, fun _ => by omega⟩, ?_, ?_⟩
+  · refine ⟨⟨by omega, by omega⟩, by omega, ?_, fun _ => by omega⟩
+    rintro u ⟨_, hu⟩ hc
+    omega
+  · rintro ⟨⟨_, h⟩, _⟩
+    omega
+
+theorem ruleInstantsAgree_counterexample : ¬ RuleInstantsAgree := by
+  intro h
+  have := (h 360 900 (by omega) (by omega) true 900 900 (by omega)).mp rule_fire_differs_nondividing.1
+  exact rule_fire_differs_nondividing.2.2 this
+
+/-- `..._partial`: under the two excluding hypotheses (rule step divides the hydraulic step, premise not due at time 0) they agree -/
+theorem ruleInstantsAgree_partial (R H : Int) (hdiv : H % R = 0) (eq : Bool) (c t : Int) (hc : 0 < c) :
+    epanetFires R H eq c t ↔ wntrFires R eq c t := rule_fire_coincide R H hdiv eq c t hc
+
+/-- tie to C04: every instant at which the WNTRSimulator model evaluated its rules is a `wntrRuleInstant` -/
+theorem wntr_ruleLog_instants {cfg : Wntr.Sched.Cfg} (hR : 0 < cfg.rule) (hH : 0 < cfg.hyd) {simTime prevTime : Int}
+    (vals : Wntr.Sched.Vals) (h : Wntr.Sched.StartOK simTime prevTime) :
+    ∀ r ∈ (Wntr.Sched.runSim cfg simTime prevTime vals).1.ruleLog, wntrRuleInstant cfg.rule r := by
+  intro r hr
+  obtain ⟨k, hk, rfl⟩ := (Wntr.C04.rules_on_positive_grid hR hH vals h).1 r hr
+  exact ⟨by positivity, Int.mul_emod_left k cfg.rule⟩
+
+/-! non-vacuity of the coincidence theorem: 3600 s hydraulic step, 600 s rule step, premise at 1000 s: both at 1200 s -/
+example : epanetFires 600 3600 false 1000 1200 ∧ wntrFires 600 false 1000 1200 := by
+  have hw : wntrFires 600 false 1000 1200 := by
+    refine ⟨⟨by omega, by omega⟩, by omega, ?_, fun h => by cases h⟩
+    rintro u ⟨_, hu⟩ hc
+    omega
+  exact ⟨(rule_fire_coincide 600 3600 (by omega) false 1000 1200 (by omega)).mpr hw, hw⟩
 
 end Wntr.Engines
